@@ -59,22 +59,6 @@ def GType.tag : GType → String
 
 def GType.ofTag (s : String) : Option GType := GType.all.find? (fun ty => ty.tag == s)
 
-/-- list nesting of the `coordinates` annotation (`float` = 0, `List[float]` = 1, …) -/
-def GType.depth : GType → Nat
-  | .timeStamp => 0
-  | .timeInterval | .point | .boundingBox => 1
-  | .lineString | .multiPoint => 2
-  | .polygon | .multiLineString => 3
-  | .multiPolygon => 4
-
-/-- names of the `coordinates` field validators, in the order pydantic runs them -/
-def GType.validatorNames : GType → List String
-  | .timeStamp => ["_positive_times"]
-  | .timeInterval => ["_validate_time_interval", "_positive_times"]
-  | .lineString => ["_validate_coordinates", "_is_ordered_by_time"]
-  | .multiLineString => ["_validate_coordinates", "_each_line_is_ordered_by_time"]
-  | _ => ["_validate_coordinates"]
-
 def GType.of : Geom → GType
   | .timeStamp _ => .timeStamp
   | .timeInterval .. => .timeInterval
